@@ -21,7 +21,7 @@ RULE = (
     "Task sets of 2-3 tasks drawn from: PG program render (with providers/inject), PG render with an injected failure, render of a page with asset-carrying components followed by "
     "render_dependencies (document / fragment), first compilation + render of inline "
     "templates through a template cache of size 1-2, first access of .media/.js/.css on a fresh class hierarchy, first compilation of templates with component tags; "
-    "schedules = (a) every single pre-emption point k (exhaustive over the baseline's yield points) for fixed task pairs, (b) Hypothesis-generated lists of <=4 pre-emptions, "
+    "schedules = (a) every single pre-emption point k (exhaustive over the baseline's yield points; in the quick tier the longest every-line pair takes every third point, residue chosen by the seed) for fixed task pairs incl. ONE component instance rendered by both threads, (b) Hypothesis-generated lists of <=4 pre-emptions, "
     "(c) PCT-style priority schedules with <=3 priority change points. Yield points = lines of django-components touching process-global state (vf/sched.py: names of module-level mutable objects and `global` declarations found in the syntax tree of the code under test, plus KEYWORDS for attribute-held state, plus all of util/cache.py). "
     "Oracle: each task's normalised result (output / exception type+message) equals its solo result; after join all six registries are empty and the template LRU's linked list agrees with its dict. "
     "Non-trivial = the executed schedule contains >=1 effective switch between two tasks that both visited a common global-state line; distinct by (task set, schedule)."
@@ -353,14 +353,19 @@ def check_single(case, col=None):
     K = s0.k
     fails = []
     lo, hi = case.get("k_range", [1, K])
+    stride, offset = case.get("k_stride", [1, 0])
+    n_enum = 0
     for k in range(lo, min(hi, K) + 1):
+        if k % stride != offset:
+            continue
+        n_enum += 1
         for t in range(1, len(case["tasks"])):
             f, _s = judge(case, {"kind": "preempt", "points": [[k, t]]}, solos, points, col, label="single")
             for m, b in f:
                 if b not in [x[1] for x in fails]:
                     fails.append((m, b))
     if col is not None:
-        col.count("single_preemption_points_enumerated", max(0, min(hi, K) - lo + 1))
+        col.count("single_preemption_points_enumerated", n_enum)
     return fails
 
 
@@ -531,14 +536,20 @@ FIXED_PAIRS = [
 ]
 
 
+LONGEST_ALL_PAIR = 5  # index in FIXED_PAIRS of the dynexpr pair
+
+
 def plan(tier, seed, scale=1.0):
     b = BOUNDS[tier]
     specs = []
     for pi in range(b["single_pairs"]):
         # split the k range of each pair over 4 shards (16 when every line is a yield point)
         parts = 16 if FIXED_PAIRS[pi].get("yield") == "all" else 4
+        # quick tier: the longest every-line pair (nested-template arguments, ~8000 points) takes every third point, the
+        # residue class chosen by the seed; the thorough tier takes them all
+        stride = 3 if (tier == "quick" and pi == LONGEST_ALL_PAIR) else 1
         for part in range(parts):
-            specs.append({"kind": "single", "pair": pi, "part": part, "parts": parts})
+            specs.append({"kind": "single", "pair": pi, "part": part, "parts": parts, "stride": stride, "offset": seed % stride})
     for pi in range(b.get("double_pairs", 2)):
         for part in range(4):
             specs.append({"kind": "double", "pair": pi, "part": part, "parts": 4})
@@ -560,9 +571,11 @@ def run_shard(spec):
         lo = 1 + spec["part"] * per
         hi = min(K, lo + per - 1)
         case["k_range"] = [lo, hi]
+        if spec.get("stride", 1) > 1:
+            case["k_stride"] = [spec["stride"], spec.get("offset", 0)]
         for m, bk in check_single(case, col):
             col.fail(case, m, bk)
-        col.exhaustive = True
+        col.exhaustive = spec.get("stride", 1) == 1
         return col
     if spec["kind"] == "double":
         case = dict(DOUBLE_PAIRS[spec["pair"]], kind="double")
